@@ -606,7 +606,10 @@ DriftClauses(e, pre, post) ==
          LET w == ResultOf(e, post)
              g == CPPad(v.t, f, e.a.m, e.a.width, e.a.fill[1], e.a.extend = 1)
          IN Cl("drift.pad", f # EmptyTab, w.t = g[1] /\ TabOf(w.f) = g[2])
-    [] e.op = "render" /\ e.a.spec = << >> /\ v.k = "S" /\ e.a.drift = 1 ->
+    \* (setting texts on which Python's int() is more liberal than "digits" - blanks, newlines, signs - are classified
+    \* differently by the code's parsable flag and by the transcription: outside the comparison, as in C15)
+    [] e.op = "render" /\ e.a.spec = << >> /\ v.k = "S" /\ e.a.drift = 1
+       /\ (\A i \in DOMAIN v.s : \A k \in DOMAIN v.s[i] : ParsableInClaim(TextTable[v.s[i][k][2]])) ->
          Cl("drift.render", f # EmptyTab, e.o.out = CPRender(v.t, f, e.a.flags))
     [] e.op \in {"strip", "rmfix"} /\ HasResult(e) ->
          LET w == ResultOf(e, post)
